@@ -18,7 +18,8 @@ class EvMonWorld(World):
     stub_components = ("event source lines, enable and clear masks (seeded agent)",)
     fault_kinds = ("clear_and_trigger_same_cycle", "one_cycle_pulse", "edges_in_consecutive_cycles",
                    "clear_of_non_pending", "repeated_add", "foreign_object", "add_after_freeze",
-                   "second_instance_in_process", "source_also_in_another_event_map")
+                   "second_instance_in_process", "source_also_in_another_event_map",
+                   "domain_reset")
     assumptions = (
         "Amaranth's Python RTL simulator executes the elaborated netlist faithfully",
         "'pending becomes set the cycle after its source triggers' is read as a registered update "
@@ -64,6 +65,7 @@ class EvMonWorld(World):
             ops.append({"k": "addnew"})
         p_lv = rng.choice([0.1, 0.3, 0.5, 0.9])
         p_clr = rng.choice([0.05, 0.3, 0.7])
+        p_rst = rng.choice([0, 0, 0, 0.03])
         for t in range(rng.range(40, 120)):
             lv = 0
             clr = 0
@@ -71,7 +73,7 @@ class EvMonWorld(World):
                 lv |= int(rng.chance(p_lv)) << i
                 clr |= int(rng.chance(p_clr)) << i
             ops.append({"k": "cyc", "lv": lv, "en": rng.bits(n) if rng.chance(0.3) else None,
-                        "clr": clr})
+                        "clr": clr, "rst": int(rng.chance(p_rst))})
         return ops
 
     def run(self, config, ops, props, stats, hist):
@@ -165,7 +167,8 @@ class EvMonWorld(World):
         n = len(order)
         trigs = [s.trigger.value for s in order]
         model = MonitorModel(trigs)
-        sim = hw.build_sim(hw.make_top(dut))
+        top, rst = hw.make_top_with_reset(dut)
+        sim = hw.build_sim(top)
         cyc_ops = [op for op in ops if op.get("k") == "cyc"]
         idx_of = {}
         for i, s in enumerate(srcs):
@@ -197,6 +200,8 @@ class EvMonWorld(World):
                 if n:
                     p.set(dut.enable, enable)
                     p.set(dut.clear, clr)
+                in_reset = int(op.get("rst") or 0) & 1
+                p.set(rst, in_reset)
                 # ---- observe / check -----------------------------------------------------
                 pend = p.get(dut.pending) if n else 0
                 stats.checks += 1
@@ -239,6 +244,15 @@ class EvMonWorld(World):
                 prevprev, prev_lv = prev_lv, lv
                 last_trg, last_clear = trg, clr
                 model.step(lv, clr)
+                if in_reset:
+                    # fault: the monitor's clock domain is reset at this edge while the lines
+                    # carry whatever they carry: everything restarts as from power-up (nothing
+                    # pending, previous input low)
+                    model.pending = 0
+                    model.prev = [0] * n
+                    stats.fault("domain_reset")
+                    if lv:
+                        stats.probe("reset_while_a_line_is_high")
                 await ctx.tick()
             stats.cycles += len(cyc_ops)
 
@@ -248,6 +262,8 @@ class EvMonWorld(World):
         if op.get("k") == "cyc":
             if op.get("clr"):
                 yield dict(op, clr=0)
+            if op.get("rst"):
+                yield dict(op, rst=0)
             if op.get("en") not in (None,):
                 yield dict(op, en=None)
 
